@@ -16,6 +16,8 @@ Vocabulary (defined next to the lemmas, repeated here in words):
 * `OpOk L op`      — `insert` of a non-empty list of forward ranges with `1 ≤ lo`; a partial chunk
   for a version `v ≥ 1` carrying `last_seq = L v` (any seq range, also inverted ones); `reload`.
 * `supHi S`        — the largest version of `S`.
+* `Touched st ops` — versions that arrived while running `ops` (whole or as an accepted chunk);
+  `Completed ops` — versions covered by a whole-version changeset of `ops`.
 -/
 import Corro.Lemmas.BookHist
 
@@ -265,43 +267,25 @@ theorem advertised_exact {L : Nat → Nat} (ops : List Op) (hops : ∀ op ∈ op
   · unfold generateSync
     cases (run Node.empty ops).book.max <;> rfl
 
-/-- The full statement "every version that arrived as a complete / cleared changeset is advertised
-as held" is FALSE of the code as it stands: a complete changeset for a version that is still an
-incomplete partial in memory is applied, `insert_db({v})` changes nothing, and `commit_snapshot`
-puts the stale in-memory partial back, so `generate_sync` keeps listing the version in
-`partial_need` with seqs that are not missing any more.  Concretely: chunk `1-1` of version 1
-(`last_seq = 1`), then the complete version 1. -/
-theorem advertised_held_counterexample :
-    (∀ op ∈ [Op.part 1 (1, 1) 1, Op.ins [(1, 1)]], OpOk (fun _ => 1) op) ∧
-    Completed [Op.part 1 (1, 1) 1, Op.ins [(1, 1)]] 1 ∧
-    (generateSync (run Node.empty [Op.part 1 (1, 1) 1, Op.ins [(1, 1)]]).book).partialNeed.lookup 1
-      = some [(0, 0)] := by
-  refine ⟨?_, ⟨[(1, 1)], by simp, (1, 1), by simp, by simp⟩, by decide⟩
-  intro op hop
-  simp only [List.mem_cons, List.not_mem_nil, or_false] at hop
-  rcases hop with rfl | rfl <;> simp [OpOk]
-
-/-- What does hold (strongest true form): as long as no complete changeset arrives for a version
-that is at that moment an incomplete partial in memory (`CleanFrom`), every version that arrived
-as a complete / cleared changeset is advertised as held — not needed, inside `1..=head`, not in
-`partial_need`. -/
-theorem advertised_held_partial {L : Nat → Nat} (ops : List Op) (hops : ∀ op ∈ ops, OpOk L op)
-    (hclean : CleanFrom Node.empty ops) (x : Nat) (hx : Completed ops x) :
+/-- "a version … it durably holds (applied or recorded as cleared)" is advertised as held: after ANY
+sequence of operations from the empty state, every version that arrived as a whole (complete or
+cleared changeset — also when a part of it was still buffered as an incomplete partial at that
+moment, and also when the `contains_all` guard dropped the changeset as already known) is not
+needed, lies in `1..=head`, is not in `partial_need`, and `contains_version` knows it.
+(Before /repo 0a29c94 this was false: `partial 1 1-1 1` / `insert 1-1` left version 1 in
+`partial_need`; the regression `example` below pins that sequence.) -/
+theorem advertised_held {L : Nat → Nat} (ops : List Op) (hops : ∀ op ∈ ops, OpOk L op)
+    (x : Nat) (hx : Completed ops x) :
     let st := run Node.empty ops
     let out := generateSync st.book
     ¬ Mem out.need x ∧ x ≤ out.head.getD 0 ∧ out.partialNeed.lookup x = none ∧
     containsVersion st.book x = true := by
   have hinv := reachable_wf (L := L) Node.empty ops (inv_empty L) hops
-  have hheld := heldOk_run (L := L) ops Node.empty (fun _ => False) (inv_empty L) hops hclean
+  have hheld := heldOk_run (L := L) ops Node.empty (fun _ => False) (inv_empty L) hops
     (fun _ hf => absurd hf id) x (Or.inr hx)
   obtain ⟨c1, c2, c3⟩ := hheld
-  have hcv : containsVersion (run Node.empty ops).book x = true := by
-    unfold containsVersion
-    have := contains_iff (run Node.empty ops).book.needed x
-    unfold RSet.contains at this
-    cases hb : (run Node.empty ops).book.needed.any (fun r => decide (r.1 ≤ x) && decide (x ≤ r.2)) with
-    | true => exact absurd (this.mp hb) c1
-    | false => simp; exact c2
+  have hcv : containsVersion (run Node.empty ops).book x = true :=
+    (containsVersion_iff _ _).mpr ⟨c1, c2⟩
   show ¬ Mem (generateSync (run Node.empty ops).book).need x ∧
     x ≤ (generateSync (run Node.empty ops).book).head.getD 0 ∧
     (generateSync (run Node.empty ops).book).partialNeed.lookup x = none ∧
@@ -378,9 +362,19 @@ example : generateSync (run Node.empty
 example : opReload (run Node.empty [.ins [(5, 6)], .part 9 (1, 3) 3, .part 2 (0, 0) 1, .part 2 (1, 1) 1]) =
     run Node.empty [.ins [(5, 6)], .part 9 (1, 3) 3, .part 2 (0, 0) 1, .part 2 (1, 1) 1] := by decide
 
-/-- the clean-history hypothesis of `advertised_held_partial` holds of a non-trivial history in
-which a partial completes before the complete changeset for the same version arrives -/
-example : CleanFrom Node.empty [.part 2 (0, 0) 1, .ins [(1, 1)], .part 2 (1, 1) 1, .ins [(2, 3)]] := by
+/-- regression (fixed in /repo 0a29c94): a complete changeset over a still incomplete partial
+drops the partial; the version is advertised as held -/
+example : generateSync (run Node.empty [.part 1 (1, 1) 1, .ins [(1, 1)]]).book = ⟨some 1, [], []⟩ := by
   decide
+
+/-- regression (fixed in /repo 15a7241): a cleared version that supersedes the partial which was
+the head writes the db-version row, so the head survives a restart -/
+example : opReload (run Node.empty [.part 2 (0, 0) 1, .ins [(2, 2)]]) =
+    ⟨⟨[], [(1, 1)], some 2⟩, ⟨[(1, 1)], [], some 2⟩⟩ := by decide
+
+/-- the hypothesis of `advertised_held` holds of a history in which whole versions arrive over an
+incomplete partial (2), over a complete one (7) and as an already known range (5-6) -/
+example : Completed [.part 2 (0, 0) 1, .part 7 (0, 0) 1, .part 7 (1, 1) 1, .ins [(5, 6)], .ins [(2, 2), (7, 7)],
+    .ins [(5, 6)]] 7 := ⟨[(2, 2), (7, 7)], by simp, (7, 7), by simp, by simp⟩
 
 end Corro.Book
